@@ -70,7 +70,10 @@ pub fn case(ctx: &Ctx, shard: usize, index: u64, rep: &mut Report) {
     let mut shared = Dec::new(sorenson, false);
     let mut twin = Dec::new(sorenson, false);
     let (src, _data, delivered) = CountRead::new(&all);
-    let mut rd = H263Reader::from_source(src);
+    // the source hands out at most `chunk` bytes per read call
+    let chunk = *rng.pick(&[usize::MAX, usize::MAX, 1, 2, 3, 7, 64, 4096]);
+    let mut rd = H263Reader::from_source(src.with_chunk(chunk));
+    rep.count(&format!("source_chunk={}", if chunk == usize::MAX { "unlimited".to_string() } else { chunk.to_string() }));
     let mut start = 0usize;
     let mut decoded = 0;
     for (i, (bytes, nbits, kind)) in pics.iter().enumerate() {
